@@ -78,7 +78,11 @@ func runScenario(bin, dir string, sc *scenario) (res runResult) {
 		return fail("harness:set-up", err.Error())
 	}
 	defer stderrF.Close()
-	cmd := exec.Command(bin, "-sshd-pipe-path", sshdPath, "-auditd-pipe-path", auditPath, "-app-events-output", outPath)
+	args := []string{"-sshd-pipe-path", sshdPath, "-auditd-pipe-path", auditPath, "-app-events-output", outPath}
+	if sc.LogLevel != "" {
+		args = append(args, "-log-level", sc.LogLevel)
+	}
+	cmd := exec.Command(bin, args...)
 	cmd.Env = append(os.Environ(), "NODE_NAME="+nodeName)
 	if sc.GoMaxProcs > 0 {
 		cmd.Env = append(cmd.Env, fmt.Sprint("GOMAXPROCS=", sc.GoMaxProcs))
